@@ -73,8 +73,11 @@ class A(Adapter):
             cfg("rand8e6o6", gen="random", items=8, ems=6, obs=6, norm=True, rew="dense"),
             # the CSV instance in a user-chosen small container (not the 20-ft default): container size, initial empty space
             # and normalisation all come from the constructor argument (cheap properties only: no forked enumeration)
-            cfg("csvsmall", True, gen="csv", items=10, ems=20, obs=20, norm=True, rew="dense", container=[2400, 1600, 900],
-                props=["C01", "C03", "C06", "C08", "C12"]),
+            cfg("csvsmall", True, gen="csv", items=10, ems=20, obs=20, norm=True, rew="dense", container=[2400, 1000, 1500],
+                props=["C01", "C02", "C03", "C06", "C08", "C12"]),
+            # a container whose floor exceeds 2^31 mm^2 (volumes and footprints beyond int32)
+            cfg("randhuge", True, gen="random", items=6, ems=30, obs=30, norm=True, rew="dense", container=[100000, 80000, 5000],
+                props=["C01", "C06", "C08", "C12"]),
         ]
 
     def build(self, c):
@@ -82,7 +85,8 @@ class A(Adapter):
         from jumanji.environments.packing.bin_pack import generator as G
         from jumanji.environments.packing.bin_pack import reward as R
         if c["gen"] == "random":
-            g = G.RandomGenerator(max_num_items=c["items"], max_num_ems=c["ems"], split_num_same_items=2)
+            kw = {"container_dims": tuple(c["container"])} if c.get("container") else {}
+            g = G.RandomGenerator(max_num_items=c["items"], max_num_ems=c["ems"], split_num_same_items=2, **kw)
         elif c["gen"] == "toy":
             g = G.ToyGenerator()
         else:
